@@ -52,8 +52,9 @@ Fixpoint media_of (setup : list (N * N)) (ch : N) : option N :=
 Inductive wst := WNone | WOpen (started : bool) | WClosed (started : bool).
 Inductive phase := PhIdle | PhPlayReq | PhPlaying | PhStopReq.
 
-Record item := mkItem { i_chan : N; i_m : N; i_f : N; i_idx : N; i_pkt : packet }.
-Record dentry := mkD { d_m : N; d_f : N; d_idx : N; d_pkt : packet }.
+(* i_late / d_late (ghost): the packet was pushed after the writer had been closed (see r_push) *)
+Record item := mkItem { i_chan : N; i_m : N; i_f : N; i_idx : N; i_late : bool; i_pkt : packet }.
+Record dentry := mkD { d_m : N; d_f : N; d_idx : N; d_late : bool; d_pkt : packet }.
 
 Record rstate := mkR {
   r_tcp : bool;
@@ -61,7 +62,10 @@ Record rstate := mkR {
   r_ph : phase;
   r_active : bool;
   r_w : wst;
-  r_queue : list item;
+  r_queue : list item;        (* the writer's ring buffer while it is open: a bounded FIFO (C16) *)
+  r_ring : list (option item); (* the same ring buffer after Close(): its slots, cleared by Close ... *)
+  r_rp : N;                   (* ... and its read and write positions, which Close does NOT reset *)
+  r_wp : N;                   (*     (positions relative to the read index at the time of Close) *)
   r_wire : list item;
   r_con : bool;               (* client side accepts media (allowInterleavedFrames / listeners running) *)
   r_deliv : list dentry;      (* callbacks invoked, oldest first *)
@@ -71,13 +75,24 @@ Record rstate := mkR {
 Record state := mkS { s_written : list (N * N * packet); s_readers : list rstate }.
 
 Definition new_reader (tcp : bool) (setup : list (N * N)) : rstate :=
-  mkR tcp setup PhIdle false WNone [] [] false [] [] [].
+  mkR tcp setup PhIdle false WNone [] [] 0 0 [] false [] [] [].
 
 (* --- field updates --- *)
 Definition upd_ctl (r : rstate) (ph : phase) (a : bool) (w : wst) (con : bool) : rstate :=
-  mkR (r_tcp r) (r_setup r) ph a w (r_queue r) (r_wire r) con (r_deliv r) (r_hist r) (r_lost r).
+  mkR (r_tcp r) (r_setup r) ph a w (r_queue r) (r_ring r) (r_rp r) (r_wp r) (r_wire r) con (r_deliv r) (r_hist r) (r_lost r).
 Definition upd_data (r : rstate) (q wi : list item) (dl : list dentry) (h l : list N) : rstate :=
-  mkR (r_tcp r) (r_setup r) (r_ph r) (r_active r) (r_w r) q wi (r_con r) dl h l.
+  mkR (r_tcp r) (r_setup r) (r_ph r) (r_active r) (r_w r) q (r_ring r) (r_rp r) (r_wp r) wi (r_con r) dl h l.
+Definition upd_ring (r : rstate) (ring : list (option item)) (rp wp : N) : rstate :=
+  mkR (r_tcp r) (r_setup r) (r_ph r) (r_active r) (r_w r) (r_queue r) ring rp wp (r_wire r) (r_con r)
+      (r_deliv r) (r_hist r) (r_lost r).
+
+(* the closures sitting in the slots of a ring *)
+Fixpoint ritems (ring : list (option item)) : list item :=
+  match ring with
+  | [] => []
+  | Some x :: t => x :: ritems t
+  | None :: t => ritems t
+  end.
 
 Definition idxs (l : list item) : list N := map i_idx l.
 
@@ -122,27 +137,44 @@ Definition r_stopreq (r : rstate) : option rstate :=
   | _ => None
   end.
 (* the consumer goroutine runs one queued closure: queue head -> transport.  After Close() of the
-   processor the consumer may still run closures pushed later, until it is joined (= r_nilw). *)
-Definition r_drain (r : rstate) : option rstate :=
-  match r_w r, r_queue r with
-  | WOpen true, x :: q | WClosed true, x :: q =>
-      Some (upd_data r q (r_wire r ++ [x]) (r_deliv r) (r_hist r) (r_lost r))
-  | _, _ => None
+   processor the consumer is still alive until it finds the slot at its read index empty, or until it is
+   joined (= r_nilw): it runs whatever is pushed into that slot meanwhile (RingBuffer.Pull tests the slot
+   before it tests closed). *)
+Definition r_drain (c : cfg) (r : rstate) : option rstate :=
+  match r_w r with
+  | WOpen true =>
+      match r_queue r with
+      | x :: q => Some (upd_data r q (r_wire r ++ [x]) (r_deliv r) (r_hist r) (r_lost r))
+      | [] => None
+      end
+  | WClosed true =>
+      match nnth (r_rp r) (r_ring r) with
+      | Some (Some x) =>
+          Some (upd_ring (upd_data r (r_queue r) (r_wire r ++ [x]) (r_deliv r) (r_hist r) (r_lost r))
+                         (nset (r_rp r) None (r_ring r)) ((r_rp r + 1) mod c_Q c) (r_wp r))
+      | _ => None
+      end
+  | _ => None
   end.
-(* destroyWriter, first half: asyncprocessor.Close -> ringbuffer.Close drops every queued closure *)
-Definition r_closew (r : rstate) : option rstate :=
+(* destroyWriter, first half: asyncprocessor.Close -> ringbuffer.Close sets every slot to nil (dropping
+   every queued closure) but leaves readIndex and writeIndex where they are: with n closures queued the
+   write position is n slots ahead of the read position. *)
+Definition r_closew (c : cfg) (r : rstate) : option rstate :=
   match r_ph r, r_w r with
   | PhStopReq, WOpen st =>
-      Some (upd_data (upd_ctl r PhStopReq (r_active r) (WClosed st) (r_con r))
-                     [] (r_wire r) (r_deliv r) (r_hist r) (r_lost r ++ idxs (r_queue r)))
+      Some (upd_ring (upd_data (upd_ctl r PhStopReq (r_active r) (WClosed st) (r_con r))
+                               [] (r_wire r) (r_deliv r) (r_hist r) (r_lost r ++ idxs (r_queue r)))
+                     (nrep None (c_Q c)) 0 (nlen (r_queue r) mod c_Q c))
   | _, _ => None
   end.
-(* destroyWriter, second half: writer = nil (what was pushed after Close is never run) *)
+(* destroyWriter, second half: the consumer has been joined, writer = nil (what was pushed after Close
+   and not run by then is never run) *)
 Definition r_nilw (r : rstate) : option rstate :=
   match r_ph r, r_w r with
   | PhStopReq, WClosed _ =>
-      Some (upd_data (upd_ctl r PhStopReq (r_active r) WNone (r_con r))
-                     [] (r_wire r) (r_deliv r) (r_hist r) (r_lost r ++ idxs (r_queue r)))
+      Some (upd_ring (upd_data (upd_ctl r PhStopReq (r_active r) WNone (r_con r))
+                               (r_queue r) (r_wire r) (r_deliv r) (r_hist r) (r_lost r ++ idxs (ritems (r_ring r))))
+                     [] 0 0)
   | _, _ => None
   end.
 (* readerSetInactive *)
@@ -207,7 +239,7 @@ Definition r_arrive (c : cfg) (i : N) (r : rstate) : option (rstate * option den
               | None => Some drop
               | Some (f, _) =>
                   if r_tcp r || newer (r_deliv r) m f (i_idx x) then
-                    let d := mkD m f (i_idx x) (i_pkt x) in
+                    let d := mkD m f (i_idx x) (i_late x) (i_pkt x) in
                     Some (upd_data r (r_queue r) wi (r_deliv r ++ [d]) (r_hist r) (r_lost r), Some d)
                   else Some drop
               end
@@ -223,7 +255,9 @@ Definition r_lose (i : N) (r : rstate) : option rstate :=
   | Some (x, wi) => Some (upd_data r (r_queue r) wi (r_deliv r) (r_hist r) (r_lost r ++ [i_idx x]))
   end.
 
-(* writePacketRTPEncoded for one reader: returns the new state and whether queue-full is reported *)
+(* writePacketRTPEncoded for one reader: returns the new state and whether queue-full is reported.
+   Push does not look at the closed flag: between Close() and writer = nil a closure is accepted whenever
+   the slot at the write index is free. *)
 Definition r_push (c : cfg) (m f idx : N) (p : packet) (r : rstate) : rstate * bool :=
   if r_active r then
     match chan_of (r_setup r) m with
@@ -231,11 +265,19 @@ Definition r_push (c : cfg) (m f idx : N) (p : packet) (r : rstate) : rstate * b
     | Some ch =>
         match r_w r with
         | WNone => (r, false)
-        | _ =>
+        | WOpen _ =>
             if nlen (r_queue r) <? c_Q c
-            then (upd_data r (r_queue r ++ [mkItem ch m f idx p]) (r_wire r) (r_deliv r)
+            then (upd_data r (r_queue r ++ [mkItem ch m f idx false p]) (r_wire r) (r_deliv r)
                            (r_hist r ++ [idx]) (r_lost r), false)
             else (r, true)
+        | WClosed _ =>
+            match nnth (r_wp r) (r_ring r) with
+            | Some None =>
+                (upd_ring (upd_data r (r_queue r) (r_wire r) (r_deliv r) (r_hist r ++ [idx]) (r_lost r))
+                          (nset (r_wp r) (Some (mkItem ch m f idx true p)) (r_ring r))
+                          (r_rp r) ((r_wp r + 1) mod c_Q c), false)
+            | _ => (r, true)
+            end
         end
     end
   else (r, false).
@@ -278,10 +320,10 @@ Inductive stepT :=
 | SArrive (r i : N) (o : option obs)               (* observed: the callback that was invoked, if any *)
 | SLose (r i : N).
 
-Definition r_ctl (k : ctl) : rstate -> option rstate :=
+Definition r_ctl (c : cfg) (k : ctl) : rstate -> option rstate :=
   match k with
   | CPlayReq => r_playreq | CCreate => r_create | CActivate => r_activate | CStart => r_start
-  | CPlayDone => r_playdone | CStopReq => r_stopreq | CDrain => r_drain | CCloseW => r_closew
+  | CPlayDone => r_playdone | CStopReq => r_stopreq | CDrain => r_drain c | CCloseW => r_closew c
   | CNilW => r_nilw | CDeact => r_deact | CStopDone => r_stopdone | CCClose => r_cclose
   end.
 
@@ -316,7 +358,7 @@ Definition step (c : cfg) (st : state) (s : stepT) : option state :=
       | WPanic => None
       end
   | SCtl k r =>
-      match upd_nth r (r_ctl k) (s_readers st) with
+      match upd_nth r (r_ctl c k) (s_readers st) with
       | Some rs => Some (mkS (s_written st) rs)
       | None => None
       end
@@ -367,6 +409,7 @@ Definition init (rs : list rstate) : state := mkS [] rs.
 
 (* ================= wire protocol =================
    case 1:  Q  nmedias {nformats {pt ssrc}}  nreaders {tcp nsetup {m chan has ssrc}}  steps...
+            (has: 1 = the SETUP response carried ssrc, 0 = it carried none, 2 = not applicable)
      steps:  1 m seq ts mk pt ssrc npay pay.. nfull full..        write
              2 k r                                                 control step k (0..11) on reader r
              3 r i 1 m f idx seq ts mk pt ssrc npay pay..          arrival, callback observed
@@ -377,10 +420,25 @@ Definition init (rs : list rstate) : state := mkS [] rs.
             2 r j                   announcement j of reader r differs from the model's
    case 2:  Q nmedias {..} m pt                -> 77 if WritePacketRTP(media m, payload type pt) panics, else 1
 *)
+(* length-prefixed list without measuring the rest of the line (GVL.Wire.getl does, which is quadratic
+   on traces of 10^5 tokens) *)
+Fixpoint take_n (n : N) (l : list N) {struct l} : option (list N * list N) :=
+  match l with
+  | [] => if n =? 0 then Some ([], []) else None
+  | x :: t =>
+      if n =? 0 then Some ([], l)
+      else match take_n (N.pred n) t with
+           | Some (a, b) => Some (x :: a, b)
+           | None => None
+           end
+  end.
+Definition getl' (l : list N) : option (list N * list N) :=
+  match l with [] => None | n :: t => take_n n t end.
+
 Definition get_pkt (l : list N) : option (packet * list N) :=
   match l with
   | s :: t :: mk :: pt :: ss :: r =>
-      match getl r with
+      match getl' r with
       | Some (pay, r') => Some (mkP s t (getb mk) pt ss pay, r')
       | None => None
       end
@@ -474,7 +532,7 @@ Fixpoint get_steps (fuel : list N) (l : list N) : option (list stepT) :=
       | 1 :: m :: r =>
           match get_pkt r with
           | Some (p, r') =>
-              match getl r' with
+              match getl' r' with
               | Some (full, r'') => option_map (cons (SWrite m p full)) (get_steps fuel' r'')
               | None => None
               end
@@ -503,10 +561,11 @@ Fixpoint check_announce (c : cfg) (su : list (N * N * (N * N))) (j : N) : option
   match su with
   | [] => None
   | (m, _, (has, ss)) :: t =>
-      let ok := match announce c m with
-                | Some s => getb has && (s =? ss)
-                | None => negb (getb has)
-                end in
+      let ok := if has =? 2 then true   (* record direction: SETUP announces nothing about the writer *)
+                else match announce c m with
+                     | Some s => getb has && (s =? ss)
+                     | None => negb (getb has)
+                     end in
       if ok then check_announce c t (j + 1) else Some j
   end.
 Fixpoint check_announces (c : cfg) (rs : list (bool * list (N * N * (N * N)))) (r : N) : option (N * N) :=
